@@ -145,7 +145,7 @@ PROPS["C01"] = dict(
     level="proof",
     units=[dict(template="units/delta.rs", slice=["*", "!RollingChecksum::roll", "!RollingChecksum::push", "!RollingChecksum::sum_*", "!RollingChecksum::len", "!RollingChecksum::is_empty", "!lemma_c17*", "!lemma_g_lit_identical"],
                 ignore_clauses={"::delta": [r"g_lit\("]}),
-           dict(template="units/singlesync.rs", slice=["AsyncCopiaSync::sync_files", "SyncBuilder::new", "SyncBuilder::block_size", "SyncBuilder::build", "CopiaSync::with_block_size", "patch_contract_restated"])],
+           dict(template="units/singlesync.rs", slice=["AsyncCopiaSync::sync_files", "SyncBuilder::new", "SyncBuilder::block_size", "SyncBuilder::build", "CopiaSync::with_block_size", "patch_contract_restated", "run_sync", "run_sync_local_to_local"])],
     twins=[
         dict(name="signature_structure", repo_fn="src/signature.rs Signature::generate", quick=3, thorough=60,
              contract="Ok ==> one entry per block in order: BlockSignature::compute(j, block j), file_size; both the <=64KiB and the >64KiB (rayon) path, all 8 CLI block sizes (for C01 the VALUE of the weak hash is irrelevant: every producer must agree)"),
@@ -162,12 +162,13 @@ PROPS["C01"] = dict(
         "CopiaSync::signature": "== Signature::generate's contract (sig_of)",
         "lemma_sig_unique": "sig_of determines the signature: engine / sequential vs parallel path independence follows from every producer satisfying sig_of",
         "AsyncCopiaSync::sync_files (single-file `sync`)": "under collision_free(): Ok ==> the destination path holds exactly the bytes the source path held at entry (all three branches: destination absent, identical, delta + patch + temp + rename), source_size is the source's length and bytes_matched + bytes_literal == source_size; every callee precondition (valid block size for CopiaSync::with_block_size's assert!, delta's window bound, patch's length bound) established for arbitrary file contents",
+        "run_sync / run_sync_local_to_local (`copia sync SRC DST`, one file)": "for ANY --block-size value the engine's assert! is unreachable (validate_block_size precedes it: an invalid size is a reported error); two local files: Ok ==> DST holds exactly the bytes SRC held (sync_files's contract carried to the command)",
         "SyncBuilder::{new, block_size, build}, CopiaSync::with_block_size": "the engine sync_files builds has the requested block size and checksum verification on; block_size's assert! is a caller obligation",
     },
     trusted=COMMON_TRUST + IO_TRUST + SIG_TRUST + SINGLE_TRUST,
     assumptions=["block size <= 2^24 and basis < 2^48 bytes (library-level domain restriction; the CLI allows 512..65536)", "block index < 2^32"],
     not_decided=["AsyncCopiaSync::signature's read loop: assumed to satisfy sig_of, validated by the engines_agree twin (not yet under a loop invariant)",
-                 "CLI file chain (bincode files): validated by the cli_chain twin only; the wrapper run_sync_local_to_local around sync_files (argument plumbing, messages) is exercised by the twin's `copia sync SRC DST` cases only",
+                 "CLI file chain (bincode files): validated by the cli_chain twin only; the two remote directions of the single-file command (run_sync_local_to_remote / run_sync_remote_to_local: one ssh child each) are outside C01's statement and by name only",
                  "engine-independence of the DELTA value: both engines satisfy the same contract (same greedy literal count and same reconstruction); equality of the op lists themselves is checked by the engines_agree twin only"],
 )
 
@@ -487,3 +488,17 @@ PROPS["C15"]["fallback_searches"].append("run_local")
 PROPS["C09"]["units"].append(dict(template="units/runsync.rs", slice=["run_local", "run_remote"], ignore_clauses=_RS_C04))
 PROPS["C09"]["clauses"]["run_local / run_remote: files outside the plan"] = "every local effect of the whole run is a directory creation, a delivery effect of a planned path or (with --delete) the unlink of a planned path; a path that belongs to no planned action is unchanged; push has no local effect (modulo the assumed summary of the orchestration region)"
 PROPS["C09"]["trusted"] = ONEWAY_TRUST + RUNSYNC_TRUST
+
+
+# ---- command-line targets (unit targets): which arguments are remote, and where they are cut ----
+TARGET_TRUST = [
+    "a &str seen through its bytes (sb): R5 shims whose body is the replaced expression - str_find / str_rfind (byte offset of the first / last occurrence of an ASCII byte), str_to / str_from (slicing next to an ASCII byte), str_has, str_is_empty, str_blen, str_owned (to_string keeps the bytes), pathbuf_of (PathBuf::from keeps the bytes); a string is at most isize::MAX bytes long",
+]
+PROPS["C13"]["units"].append(dict(template="units/targets.rs", slice=["split_target"]))
+PROPS["C13"]["clauses"]["split_target"] = "Some((host, root)) ==> TARGET == host ++ ':' ++ root cut at its FIRST colon (later colons belong to the root), host non-empty and without '/'; None ==> no such cut exists (no colon, or the text before the first colon is empty or contains '/')"
+PROPS["C13"]["trusted"] = PROPS["C13"]["trusted"] + TARGET_TRUST
+PROPS["C13"]["not_decided"] = [x for x in PROPS["C13"]["not_decided"] if "split_target itself is not under contract" not in x and "split_target (host:root parsing) are not under contract" not in x] + ["HubClient::connect / bye (process spawning) are not under contract; `host:root` targets are also exercised by the run twin through an ssh stand-in (incl. roots containing a colon)"]
+PROPS["C04"]["units"].append(dict(template="units/targets.rs", slice=["FileLocation::parse"]))
+PROPS["C04"]["clauses"]["FileLocation::parse (sync SRC DST arguments)"] = "Remote{host, path} ==> ARG == host ++ ':' ++ path cut at its FIRST colon, host longer than one byte (the code's drive-letter rule) and without '/' or '\\'; Local(p) ==> p is the whole argument, byte for byte, and no such cut exists"
+PROPS["C04"]["trusted"] = PROPS["C04"]["trusted"] + TARGET_TRUST
+PROPS["C04"]["not_decided"] = [x for x in PROPS["C04"]["not_decided"] if "host:path parsing in main.rs" not in x]
